@@ -215,6 +215,9 @@ func c12Null() *c12Node         { return &c12Node{major: 7, ai: 22} }
 // denotes the same data item (another admissible encoding of it), so that an accepting decoder must
 // return the original value; `mustReject` says that the property itself demands rejection.
 type c12Mutant struct {
+	// label refines kind in violation texts (dropfield:r = the entry "r" removed, nullfield:r = its
+	// value replaced by null)
+	label      string
 	kind       string
 	bytes      []byte
 	preserving bool
@@ -500,7 +503,11 @@ func c12FieldMutants(b []byte) []*c12Mutant {
 				} else {
 					t.kids = append(t.kids[:2*e], t.kids[2*e+2:]...)
 				}
-				out = append(out, &c12Mutant{kind: kind, bytes: cp.enc()})
+				label := kind
+				if k := n.kids[2*e]; k.major == 3 {
+					label = kind + ":" + string(k.data)
+				}
+				out = append(out, &c12Mutant{kind: kind, label: label, bytes: cp.enc()})
 			}
 		}
 	}
